@@ -18,11 +18,13 @@ import (
 	"os"
 	"runtime"
 	"sort"
+	"strings"
 	"sync"
 	"time"
 )
 
 type Case struct {
+	OpFn       func(ext string) string // if set: request as a function of the residual table (ops with residuals)
 	Op         string   // request: op and arguments
 	Impl       string   // what the implementation returned (s-expression)
 	Tags       []string // for the input-distribution report
@@ -171,6 +173,18 @@ func kindRank(k string) int {
 	return 2
 }
 
+// ask sends one case to the driver (resolving residual queries) and fills cs.Op with the final request
+func ask(d *Driver, cs *Case) (Reply, error) {
+	if cs.OpFn == nil {
+		return d.Ask(cs.Op + " | " + cs.Impl)
+	}
+	r, line, err := askWithExt(d, func(ext string) string { return cs.OpFn(ext) + " | " + cs.Impl })
+	if i := strings.LastIndex(line, " | "); i >= 0 {
+		cs.Op = line[:i]
+	}
+	return r, err
+}
+
 func runStream(st *Stream, seed uint64, n int, tier, driverPath string, workers int) *Summary {
 	sum := &Summary{Stream: st.Name, Rule: st.Rule, Seed: seed, Tier: tier,
 		OutOfScope: map[string]int{}, FindingHits: map[string]int{}, Dist: map[string]int{}}
@@ -194,7 +208,7 @@ func runStream(st *Stream, seed uint64, n int, tier, driverPath string, workers 
 			defer d.Close()
 			if w == 0 {
 				for k, cs := range fixed {
-					r, err := d.Ask(cs.Op + " | " + cs.Impl)
+					r, err := ask(d, &cs)
 					if err != nil {
 						errs <- err
 						return
@@ -212,7 +226,7 @@ func runStream(st *Stream, seed uint64, n int, tier, driverPath string, workers 
 				} else {
 					cs = st.Gen(caseRand(seed, st.Name, i), tier)
 				}
-				r, err := d.Ask(cs.Op + " | " + cs.Impl)
+				r, err := ask(d, &cs)
 				if err != nil {
 					errs <- err
 					return
@@ -309,7 +323,7 @@ func main() {
 			os.Exit(2)
 		}
 		defer d.Close()
-		r, err := d.Ask(cs.Op + " | " + cs.Impl)
+		r, err := ask(d, &cs)
 		if err != nil {
 			fmt.Fprintln(os.Stderr, err)
 			os.Exit(2)
